@@ -28,7 +28,12 @@
 //! type (saturation of the f64 round trip), beyond 2^53 / 2^63, -0.0, subnormal and sub-EPSILON divisors; operands from
 //! `big_shapes()` (axis lengths 7..17, > 256 / 1024 / 4096 elements, both / one / the other operand stretched) and
 //! `zero_shapes()`; refusal with the zero at the LAST position of a long divisor.
+//! Part 2: hidden state (`seq` lines = several calls on one thread: operand shapes that collide under weak polynomial hashes,
+//! permuted / perturbed values, refused-then-accepted calls; an A-B-A re-run of the previous case after every case), huge
+//! operands (16 385 .. 140 000 elements, equal shapes and stretched), every axis length 1..300, the SAME OBJECT on both sides
+//! (`a.op(&a)` with NaN / inf / -0.0 / limits inside), ranks 5..8, f64::MAX and neighbours.
 use arrharness::*;
+use std::cell::RefCell;
 
 const NAN_BITS: u64 = 0x7ff8_0000_0000_0000;
 
@@ -88,6 +93,8 @@ trait Elem: Numeric + 'static {
     fn pool(d: Dom) -> Vec<Self>;
     /// the pool of the robustness streams: `pool` + values beyond 2^53 / 2^63, at the limits of the type, sub-EPSILON divisors
     fn pool_x(d: Dom) -> Vec<Self> { Self::pool(d) }
+    /// the pool of the part-2 streams: `pool_x` + f64::MAX and its neighbours, the largest subnormal, 1 - EPSILON/2, …
+    fn pool_y(d: Dom) -> Vec<Self> { Self::pool_x(d) }
     /// operations that exist only for some element types (`NumericOps`: atan2, hypot; `Floating`: copysign, nextafter, ldexp)
     fn call_float(_op: &str, _a: &Array<Self>, _b: &Array<Self>, _recv: Recv) -> Option<Result<Array<Self>, ArrayError>> { None }
 }
@@ -189,6 +196,11 @@ fn f64_extra() -> Vec<f64> {
     vec![1e-17, -2.5e-17, 1e-20, 2.2e-16, -2.2e-16, 2.3e-16, 1.1e-7, -1.1e-7, 1e-40, -1e-40, 1.401298464324817e-45, 1.1754943508222875e-38, 16777216.0, 16777217.0, -16777217.0,
         9223372036854775808.0, -9223372036854775808.0, 18446744073709551616.0, 1e19, -1e19, 3.4028234663852886e38, 3.5e38, -3.5e38, 0.30000000000000004, 4503599627370497.0, -4503599627370496.5]
 }
+/// the last finite values before +-inf and their neighbours (f64 and f32), the largest subnormal, values next to 1 and 2^52
+fn f64_edge() -> Vec<f64> {
+    vec![f64::MAX, -f64::MAX, 1.7976931348623155e308, -1.7976931348623155e308, 8.98846567431158e307, 5.992310449541053e307, 3.4028235677973366e38, -3.4028235677973366e38, 3.4028232635611926e38,
+         2.225073858507201e-308, f64::EPSILON, 0.9999999999999999, 1.0000000000000002, 4503599627370496.5, 1.3407807929942597e154, -1.3407807929942597e154, 1.8446743523953730e19]
+}
 macro_rules! elem_float {
     ($t:ty, $ti:ty) => {
         impl Elem for $t {
@@ -208,6 +220,7 @@ macro_rules! elem_float {
             fn u() -> Self { 1.0 }
             fn pool(d: Dom) -> Vec<Self> { float_pool::<$t>(d, f64_general()) }
             fn pool_x(d: Dom) -> Vec<Self> { let mut g = f64_general(); g.extend(f64_extra()); float_pool::<$t>(d, g) }
+            fn pool_y(d: Dom) -> Vec<Self> { let mut g = f64_general(); g.extend(f64_extra()); g.extend(f64_edge()); float_pool::<$t>(d, g) }
             fn call_float(op: &str, a: &Array<Self>, b: &Array<Self>, recv: Recv) -> Option<Result<Array<Self>, ArrayError>> {
                 match op {
                     "copysign" | "nextafter" | "ldexp" => on_recv!(recv, a, |r| floating_on(r, op, b)),
@@ -398,12 +411,25 @@ fn check_positions<N: Elem>(obs: &Obs<N>, expected: &str, kernel: &dyn Fn(&[usiz
 
 /// The same call on `Ok(array)` must give the bit-identical answer (same shape, same element bits, same outcome class) and on
 /// an `Err(_)` receiver it must stay an error.  `None` = the receivers agree.
-fn receivers_agree<N: Elem>(plain: &Obs<N>, chained: &Obs<N>, on_err: &Obs<N>) -> Option<Verdict> {
-    let same = match (plain, chained) {
+fn same_obs<N: Elem>(plain: &Obs<N>, other: &Obs<N>) -> bool {
+    match (plain, other) {
         (Obs::Ok(s1, v1, c1), Obs::Ok(s2, v2, c2)) => s1 == s2 && c1 == c2 && v1.len() == v2.len() && v1.iter().zip(v2).all(|(x, y)| x.key() == y.key()),
         (Obs::Err(_), Obs::Err(_)) | (Obs::Panic, Obs::Panic) => true,
         _ => false,
-    };
+    }
+}
+/// aliasing: the call with the SAME OBJECT as receiver and argument (`a.op(&a)`) must give what the call on two separately built
+/// operands with these values gives.  `None` = it does.
+fn alias_agrees<N: Elem>(plain: &Obs<N>, aliased: &Obs<N>) -> Option<Verdict> {
+    if same_obs(plain, aliased) { return None; }
+    let first = match (plain, aliased) {
+        (Obs::Ok(_, v1, _), Obs::Ok(_, v2, _)) => v1.iter().zip(v2).position(|(x, y)| x.key() != y.key()).map_or(String::new(), |p| format!(" (first difference at flat position {p}: {} vs {})", v2[p].tok(), v1[p].tok())),
+        _ => String::new() };
+    Some(Verdict::Mismatch { observed: format!("ALIAS-DIVERGENCE a.op(&a): {}", truncate(&obs_text(aliased), 600)),
+        detail: format!("the call with the same array object on both sides differs from the call on two separately built operands with the same values, which gives `{}`{first}", truncate(&obs_text(plain), 600)) })
+}
+fn receivers_agree<N: Elem>(plain: &Obs<N>, chained: &Obs<N>, on_err: &Obs<N>) -> Option<Verdict> {
+    let same = same_obs(plain, chained);
     if !same {
         let first = match (plain, chained) {
             (Obs::Ok(_, v1, _), Obs::Ok(_, v2, _)) => v1.iter().zip(v2).position(|(x, y)| x.key() != y.key()).map_or(String::new(), |p| format!(" (first difference at flat position {p}: {} vs {})", v2[p].tok(), v1[p].tok())),
@@ -425,6 +451,8 @@ fn run_op<N: Elem>(op: &str, pat: &str, a_s: &str, b_s: &str, expected: &str) ->
     let obs = observe(|| call(op, &a, &b))?;
     let chained = observe(|| call_recv(op, &a, &b, Recv::Chained))?;
     let on_err = observe(|| call_recv(op, &a, &b, Recv::ErrRecv))?;
+    // identical operands: also with the same object on both sides
+    let aliased = if a_s == b_s { Some(observe(|| call(op, &a, &a))?) } else { None };
     // receiver-shaped family: an argument of the same element count that is not a stretch of the receiver's shape is the
     // region C03 leaves open (broadcast_to's equal-count shortcut); compared only when it agrees
     let open = matches!(pat, "R" | "RA") && !stretchable(&pb.0, &pa.0) && pa.1.len() == pb.1.len();
@@ -437,9 +465,10 @@ fn run_op<N: Elem>(op: &str, pat: &str, a_s: &str, b_s: &str, expected: &str) ->
         w.push(("one-element-array", single(&opn, x, y)?));
         Ok(w)
     });
+    let others = || receivers_agree(&obs, &chained, &on_err).or_else(|| aliased.as_ref().and_then(|al| alias_agrees(&obs, al)));
     Some(match v {
-        Verdict::Mismatch { observed, detail } => if open { receivers_agree(&obs, &chained, &on_err).unwrap_or(Verdict::Open(observed)) } else { Verdict::Mismatch { observed, detail } },
-        v => receivers_agree(&obs, &chained, &on_err).unwrap_or(v) })
+        Verdict::Mismatch { observed, detail } => if open { others().unwrap_or(Verdict::Open(observed)) } else { Verdict::Mismatch { observed, detail } },
+        v => others().unwrap_or(v) })
 }
 
 fn run_clip<N: Elem>(a_s: &str, lo_s: &str, hi_s: &str, expected: &str) -> Option<Verdict> {
@@ -497,7 +526,69 @@ fn run_comm<N: Elem>(op: &str, pat: &str, a_s: &str, b_s: &str, expected: &str) 
         v => v })
 }
 
+/// the plain-receiver answer of a case as text (element bits), nothing else — for the A-B-A re-run
+fn plain_obs<N: Elem>(kind: &str, op: &str, x: &str, y: &str, z: &str) -> Option<String> {
+    match kind {
+        "clip" => { let (a, lo, hi) = (mk(&parse_vals::<N>(x)?), mk(&parse_vals::<N>(y)?), mk(&parse_vals::<N>(z)?)); Some(obs_text(&observe(|| Some(clip_recv(&a, &lo, &hi, Recv::Plain)))?)) }
+        _ => { let (a, b) = (mk(&parse_vals::<N>(x)?), mk(&parse_vals::<N>(y)?)); Some(obs_text(&observe(|| call(op, &a, &b))?)) }
+    }
+}
+fn plain_text(op: &str, args: &[&str]) -> Option<String> {
+    macro_rules! by_type { ($ty:expr, $($arg:expr),*) => { match $ty { "i32" => plain_obs::<i32>($($arg),*), "i64" => plain_obs::<i64>($($arg),*), "u8" => plain_obs::<u8>($($arg),*), "f64" => plain_obs::<f64>($($arg),*),
+        "i8" => plain_obs::<i8>($($arg),*), "i16" => plain_obs::<i16>($($arg),*), "u16" => plain_obs::<u16>($($arg),*), "u32" => plain_obs::<u32>($($arg),*), "u64" => plain_obs::<u64>($($arg),*), "f32" => plain_obs::<f32>($($arg),*), _ => None } } }
+    match op {
+        "comm" => { if args.len() != 5 { return None; } by_type!(args[2], "op", args[0], args[3], args[4], "") }
+        "clip" => { if args.len() != 5 { return None; } by_type!(args[1], "clip", "clip", args[2], args[3], args[4]) }
+        _ => { if args.len() != 4 { return None; } by_type!(args[1], "op", op, args[2], args[3], "") }
+    }
+}
+
+/// `seq case / case / …`: the cases are executed one after the other on this thread, each compared with the model
+fn exec_seq(args: &[&str], expected: &str) -> Option<Verdict> {
+    let parts: Vec<&[&str]> = args.split(|&a| a == "/").collect();
+    let exps: Vec<&str> = expected.split(" / ").collect();
+    if parts.len() != exps.len() { return None; }
+    let (mut texts, mut open) = (vec![], false);
+    for (k, (p, e)) in parts.iter().zip(&exps).enumerate() {
+        match exec_single(p.first()?, &p[1..], e)? {
+            Verdict::Match(o) => texts.push(truncate(&o, 120)),
+            Verdict::Open(o) => { open = true; texts.push(truncate(&o, 120)); }
+            Verdict::Mismatch { observed, detail } => {
+                texts.push(truncate(&observed, 600));
+                return Some(Verdict::Mismatch { observed: texts.join(" / "), detail: format!("call {} of the sequence (`{}`), executed after the calls before it on the same thread: {detail}", k + 1, truncate(&p.join(" "), 300)) });
+            }
+        }
+    }
+    Some(if open { Verdict::Open(texts.join(" / ")) } else { Verdict::Match(texts.join(" / ")) })
+}
+
+thread_local! {
+    /// the previous case of this thread and its plain-receiver answer (A-B-A discipline)
+    static PREV: RefCell<Option<(String, Vec<String>, String)>> = RefCell::new(None);
+}
+
 fn exec(op: &str, args: &[&str], expected: &str) -> Option<Verdict> {
+    if op == "seq" { PREV.with(|p| *p.borrow_mut() = None); return exec_seq(args, expected); }
+    let mut v = exec_single(op, args, expected)?;
+    // A-B-A: after this case (B) the previous case (A) is executed again and must give what it gave before B
+    if let Some((pop, pargs, ptext)) = PREV.with(|p| p.borrow_mut().take()) {
+        let pa: Vec<&str> = pargs.iter().map(String::as_str).collect();
+        if let Some(again) = plain_text(&pop, &pa) {
+            if again != ptext && !matches!(v, Verdict::Mismatch { .. }) {
+                let a_line = format!("{pop} {}", pargs.join(" "));
+                v = Verdict::Mismatch { observed: format!("STATE-DIVERGENCE `{}` executed again after this case gives `{}`", truncate(&a_line, 300), truncate(&again, 400)),
+                    detail: format!("before this case the same call gave `{}`; self-contained replay: seq {a_line} / {op} {} / {a_line}", truncate(&ptext, 400), args.join(" ")) };
+            }
+        }
+    }
+    // remember this case (short lines only) with the answer of one more plain call
+    if args.iter().map(|a| a.len()).sum::<usize>() <= 3000 {
+        if let Some(t) = plain_text(op, args) { PREV.with(|p| *p.borrow_mut() = Some((op.to_string(), args.iter().map(|s| s.to_string()).collect(), t))); }
+    }
+    Some(v)
+}
+
+fn exec_single(op: &str, args: &[&str], expected: &str) -> Option<Verdict> {
     macro_rules! by_type { ($ty:expr, $f:ident, $($arg:expr),*) => { match $ty { "i32" => $f::<i32>($($arg),*), "i64" => $f::<i64>($($arg),*), "u8" => $f::<u8>($($arg),*), "f64" => $f::<f64>($($arg),*),
         "i8" => $f::<i8>($($arg),*), "i16" => $f::<i16>($($arg),*), "u16" => $f::<u16>($($arg),*), "u32" => $f::<u32>($($arg),*), "u64" => $f::<u64>($($arg),*), "f32" => $f::<f32>($($arg),*), _ => None } } }
     match op {
@@ -532,6 +623,73 @@ fn fill_ty_x(rng: &mut Rng, ty: &str, oi: &OpInfo, sa: &[usize], sb: &[usize], e
         _ => fill::<f64>(rng, oi, sa, sb, ext) }
 }
 fn fill_ty(rng: &mut Rng, ty: &str, oi: &OpInfo, sa: &[usize], sb: &[usize]) -> (String, String) { fill_ty_x(rng, ty, oi, sa, sb, false) }
+fn draw_y<N: Elem>(rng: &mut Rng, d: Dom, n: usize) -> Vec<N> {
+    let pool = N::pool_y(d);
+    let perm = rng.perm(pool.len());
+    (0..n).map(|k| if k < pool.len() { pool[perm[k]] } else { pool[rng.below(pool.len())] }).collect()
+}
+fn fill_y<N: Elem>(rng: &mut Rng, oi: &OpInfo, sa: &[usize], sb: &[usize]) -> (String, String) {
+    let (na, nb) = (sa.iter().product::<usize>(), sb.iter().product::<usize>());
+    let da = if oi.dom == Dom::Small { Dom::Small } else { Dom::General };
+    (show_vals(sa, &draw_y::<N>(rng, da, na)), show_vals(sb, &draw_y::<N>(rng, oi.dom, nb)))
+}
+/// values for a case whose two operands are the same array: both operand domains must hold; NaN / +-inf / +-0.0 / the values at
+/// the limits come first so that they are inside even a short array
+fn alias_vals<N: Elem>(rng: &mut Rng, oi: &OpInfo, s: &[usize]) -> String {
+    let n: usize = s.iter().product();
+    let pool = N::pool_y(oi.dom);
+    let (sp, rest): (Vec<N>, Vec<N>) = pool.iter().partition(|v| { let f = v.f(); f.is_nan() || f.is_infinite() || f == 0.0 || f.abs() > 1e18 });
+    let (ps, pr) = (rng.perm(sp.len()), rng.perm(rest.len()));
+    let mut v: Vec<N> = vec![];
+    for k in 0..n {
+        let from_sp = !sp.is_empty() && (k % 2 == 0 || rest.is_empty()) && k / 2 < sp.len();
+        v.push(if from_sp { sp[ps[k / 2]] } else if !rest.is_empty() { rest[pr[k % rest.len()]] } else { sp[ps[k % sp.len()]] });
+    }
+    let perm = rng.perm(n);
+    show_vals(s, &perm.iter().map(|&k| v[k]).collect::<Vec<N>>())
+}
+macro_rules! by_ty { ($ty:expr, $f:ident, $($arg:expr),*) => { match $ty { "i32" => $f::<i32>($($arg),*), "i64" => $f::<i64>($($arg),*), "u8" => $f::<u8>($($arg),*), "i8" => $f::<i8>($($arg),*), "i16" => $f::<i16>($($arg),*),
+    "u16" => $f::<u16>($($arg),*), "u32" => $f::<u32>($($arg),*), "u64" => $f::<u64>($($arg),*), "f32" => $f::<f32>($($arg),*), _ => $f::<f64>($($arg),*) } } }
+/// a case line of the part-2 streams (pools with the edge values); the values depend only on (op, type, shapes, salt)
+fn case_line_y(oi: &OpInfo, ty: &str, sa: &[usize], sb: &[usize], salt: u64) -> String {
+    let mut rng = Rng::new(hash_str(&format!("y|{}|{}|{:?}|{:?}|{}", oi.name, ty, sa, sb, salt)));
+    let (a, b) = by_ty!(ty, fill_y, &mut rng, oi, sa, sb);
+    format!("{} {} {} {} {}", oi.name, oi.pat, ty, a, b)
+}
+/// the same array text on both sides: `exec` then also calls the operation with the same object as receiver and argument
+fn alias_line(oi: &OpInfo, ty: &str, s: &[usize], salt: u64) -> String {
+    let mut rng = Rng::new(hash_str(&format!("alias|{}|{}|{:?}|{}", oi.name, ty, s, salt)));
+    let a = by_ty!(ty, alias_vals, &mut rng, oi, s);
+    format!("{} {} {} {} {}", oi.name, oi.pat, ty, a, a)
+}
+/// the line with the values of its first operand rotated by one position (same shape, same multiset, same sum)
+fn rotate_first(line: &str) -> String {
+    let mut parts: Vec<String> = line.split(' ').map(String::from).collect();
+    let (sh, el) = parts[3].split_once(':').unwrap();
+    let mut toks: Vec<&str> = el.split(',').collect();
+    toks.rotate_left(1);
+    parts[3] = format!("{}:{}", sh, toks.join(","));
+    parts.join(" ")
+}
+/// the line with the first value of its first operand replaced by a neighbour (next bit pattern / next integer)
+fn nudge_first(line: &str) -> String {
+    let mut parts: Vec<String> = line.split(' ').map(String::from).collect();
+    let (sh, el) = parts[3].split_once(':').unwrap();
+    let mut toks: Vec<String> = el.split(',').map(String::from).collect();
+    toks[0] = if let Some(h) = toks[0].strip_prefix('x') {
+        let b = u64::from_str_radix(h, 16).unwrap();
+        let f = f64::from_bits(b);
+        // f32 values travel widened: step by one f32 ulp so that the neighbour is representable in either width
+        if !f.is_finite() || f == 0.0 || f.abs() < 1e-30 || f.abs() > 1e30 { toks[0].clone() } else { format!("x{:016x}", ((f as f32) as f64 == f).then(|| (f32::from_bits((f as f32).to_bits() + 1) as f64).to_bits()).unwrap_or(b + 1)) }
+    } else { match toks[0].parse::<i128>() { Ok(v) if (0..100).contains(&v) => (v + 1).to_string(), Ok(v) if (-100..0).contains(&v) => (v - 1).to_string(), _ => toks[0].clone() } };
+    parts[3] = format!("{}:{}", sh, toks.join(","));
+    parts.join(" ")
+}
+fn seq_aba(a: &str, b: &str, out: &mut dyn FnMut(String)) {
+    out(format!("seq {a} / {b} / {a}"));
+    out(format!("seq {b} / {a} / {b}"));
+}
+
 /// a case line of the positional stream; the values depend only on (op, type, shapes, salt) — not on the run seed
 fn case_line(oi: &OpInfo, ty: &str, sa: &[usize], sb: &[usize], salt: u64) -> String {
     let mut rng = Rng::new(hash_str(&format!("{}|{}|{:?}|{:?}|{}", oi.name, ty, sa, sb, salt)));
@@ -831,11 +989,207 @@ fn gen(tier: &str, seed: u64, out: &mut dyn FnMut(String)) {
         let line = case_line_x(oi, ty, &sa, &sb, seed.wrapping_add(k as u64));
         if DIVISION_FAMILY.contains(&oi.name) && rx.below(8) == 0 { let nb: usize = sb.iter().product(); out(with_zero_at(&line, ty, rx.below(nb), rx.below(2) == 0)); } else { out(line); }
     }
+
+    gen_part2(thorough, seed, out);
+}
+
+/// FRAMEWORK.md robustness streams, part 2: hidden state, huge sizes, exact lengths, aliasing, high ranks, edge values
+fn gen_part2(thorough: bool, seed: u64, out: &mut dyn FnMut(String)) {
+    let mut ry = Rng::new(seed ^ 0xC04_0003);
+    let small2 = shapes(1, 2, 1, 3);
+    let r_family = |oi: &OpInfo| matches!(oi.pat, "R" | "RA");
+    // ---- (xiii) aliasing: every op x every element type with ONE array text on both sides (exec calls `a.op(&a)` with the same
+    //      object and compares it bit-wise with the separately-built-operands answer, which is compared with the model);
+    //      NaN, +-inf, +-0.0, f64::MAX, the integer limits inside
+    let mut alias_shapes: Vec<Vec<usize>> = small2.clone();
+    alias_shapes.extend(vec![vec![7], vec![3, 3, 3], vec![17, 16], vec![2, 1, 2, 1, 2]]);
+    for (oi_k, oi) in OPS.iter().enumerate() {
+        let ta = types_all(oi);
+        for (si, s) in alias_shapes.iter().enumerate() {
+            for (ti, ty) in ta.iter().enumerate() {
+                let n: usize = s.iter().product();
+                if n > 30 && !thorough && (si + oi_k) % ta.len() != ti { continue; }
+                out(alias_line(oi, ty, s, 0));
+                if thorough || n <= 4 { out(alias_line(oi, ty, s, 1)); }
+            }
+        }
+        // a huge one: 16 385 elements (one more than 2^14)
+        out(alias_line(oi, ta[oi_k % ta.len()], &[16385], 0));
+        if thorough { out(alias_line(oi, ta[(oi_k + 1) % ta.len()], &[129, 131], 0)); }
+    }
+
+    // ---- (xiv) hidden state.  Every `seq` line is self-contained: its calls run one after the other on the executing thread.
+    // (a) operand shapes that collide under the polynomial hashes h*m + dim (m = 31, 33, 37, 131, 257): both operands of one call
+    //     (both-stretch family, clip bounds), the two arguments of two consecutive calls on one receiver (every family), both orders
+    let mut cols: Vec<(Vec<usize>, Vec<usize>)> = vec![];
+    for &m in &[31usize, 33, 37, 131, 257] {
+        cols.push((vec![2, 1], vec![1, 1 + m]));
+        cols.push((vec![2, 1, 2], vec![1, 1 + m, 2]));
+        cols.push((vec![3, 2, 1], vec![3, 1, 1 + m]));
+    }
+    for (p, q) in collision_shape_pairs() { if p.len() == 2 && bshape(&p, &q).is_some() && !cols.contains(&(p.clone(), q.clone())) { cols.push((p, q)); } }
+    let clip_info = o("clip", "R3", false, false, Dom::General);
+    for (oi_k, oi) in OPS.iter().enumerate() {
+        let ta = types_all(oi);
+        for (ci, (p, q)) in cols.iter().enumerate() {
+            if !thorough && (ci + oi_k) % 3 != 0 { continue; }
+            let ty = ta[(ci + oi_k) % ta.len()];
+            let t = bshape(p, q).unwrap();
+            if !r_family(oi) {
+                out(case_line_y(oi, ty, p, q, 20));
+                out(case_line_y(oi, ty, q, p, 20));
+            }
+            seq_aba(&case_line_y(oi, ty, &t, p, 21), &case_line_y(oi, ty, &t, q, 21), out);
+        }
+    }
+    for (ci, (p, q)) in cols.iter().enumerate() {
+        let ty = ["i32", "i64", "u8", "f64", "i8", "i16", "u16", "u32", "u64", "f32"][ci % 10];
+        let t = bshape(p, q).unwrap();
+        let mut rng = Rng::new(hash_str(&format!("clipcol|{ci}")));
+        let (a, l) = by_ty!(ty, fill_y, &mut rng, &clip_info, &t, p);
+        let (_, h) = by_ty!(ty, fill_y, &mut rng, &clip_info, &t, q);
+        out(format!("clip R3 {ty} {a} {l} {h}"));
+        out(format!("clip R3 {ty} {a} {h} {l}"));
+    }
+    // (b) transposed shapes / equal element counts / equal sums of dims in consecutive calls (keys built from counts or sorted dims)
+    for (oi_k, oi) in OPS.iter().enumerate() {
+        let ta = types_all(oi);
+        for (vi, (s1, a1, s2, a2)) in [(vec![2, 3], vec![2, 1], vec![3, 2], vec![3, 1]), (vec![2, 3], vec![1, 3], vec![3, 2], vec![1, 2]), (vec![2, 2, 3], vec![2, 1, 3], vec![2, 3, 2], vec![2, 1, 2]), (vec![4, 3], vec![4, 1], vec![2, 6], vec![2, 1]),
+                                       (vec![3, 5], vec![5], vec![5, 3], vec![3])].iter().enumerate() {
+            let ty = ta[(vi + oi_k) % ta.len()];
+            seq_aba(&case_line_y(oi, ty, s1, a1, 22), &case_line_y(oi, ty, s2, a2, 22), out);
+        }
+    }
+    // (c) the same shapes with other VALUES: the first operand rotated by one position (same multiset, same sum) and with one value
+    //     replaced by its neighbour (a memo keyed by a fingerprint of the values, or compared with a tolerance)
+    for (oi_k, oi) in OPS.iter().enumerate() {
+        let ta = types_all(oi);
+        for (vi, (sa, sb)) in [(vec![4], vec![4]), (vec![2, 2], vec![2]), (vec![3, 2], vec![3, 1]), (vec![5], vec![1])].iter().enumerate() {
+            for ty in [ta[(vi + oi_k) % ta.len()], ta[(vi + oi_k + 1) % ta.len()]] {
+                let x = case_line(oi, ty, sa, sb, 23);      // the original pools: values a neighbour of which is still in the domain
+                seq_aba(&x, &rotate_first(&x), out);
+                let y = nudge_first(&x);
+                if y != x { seq_aba(&x, &y, out); }
+            }
+        }
+    }
+    // (d) a refused call directly followed by an accepted one on related operands, and back: incompatible shapes; a zero in the divisor
+    for (oi_k, oi) in OPS.iter().enumerate() {
+        let ta = types_all(oi);
+        let ty = ta[oi_k % ta.len()];
+        let good = case_line_y(oi, ty, &[2, 3], &[3], 24);
+        let bad = case_line_y(oi, ty, &[2, 3], &[2], 24);
+        seq_aba(&bad, &good, out);
+        out(format!("seq {bad} / {bad} / {good} / {good}"));
+        if DIVISION_FAMILY.contains(&oi.name) {
+            for ty in ta.iter() {
+                let good = case_line_y(oi, ty, &[2, 3], &[3], 25);
+                let bad = with_zero_at(&good, ty, 2, true);
+                seq_aba(&bad, &good, out);
+                let good2 = case_line_y(oi, ty, &[3], &[2, 3], 25);
+                seq_aba(&with_zero_at(&good2, ty, 5, false), &good2, out);
+            }
+        }
+    }
+    // (e) interleaved: sequences of 4..6 seeded random small calls of different ops, types and shapes
+    let n_seq = if thorough { 4000 } else { 500 };
+    for k in 0..n_seq {
+        let base = ry.shape(1, 3, 3);
+        let parts: Vec<String> = (0..4 + ry.below(3)).map(|j| {
+            let oi = &OPS[ry.below(OPS.len())];
+            let ty = *ry.pick(&types_all(oi));
+            let (sa, sb) = if r_family(oi) || ry.below(2) == 0 { (base.clone(), derive_shape(&mut ry, &base)) } else { (derive_shape(&mut ry, &base), derive_shape(&mut ry, &base)) };
+            case_line_y(oi, ty, &sa, &sb, seed.wrapping_add((k * 8 + j) as u64))
+        }).collect();
+        out(format!("seq {}", parts.join(" / ")));
+    }
+
+    // ---- (xv) huge sizes: equally shaped operands of 16 385 .. 20 000 elements (more than 2^14, not a multiple of it), stretched
+    //      operands of 16 900 .. 140 000 elements (an axis above 65 536; a 36 000-element target with two non-unit source axes)
+    let huge_eq: [Vec<usize>; 4] = [vec![100, 200], vec![16385], vec![129, 131], vec![20000]];
+    let huge_st: [(Vec<usize>, Vec<usize>); 6] = [(vec![130, 130], vec![130, 1]), (vec![130, 130], vec![1, 130]), (vec![40, 30, 30], vec![40, 1, 30]), (vec![2, 70000], vec![2, 1]), (vec![300, 300], vec![300]), (vec![70000, 2], vec![2])];
+    for (oi_k, oi) in OPS.iter().enumerate() {
+        let ta = types_all(oi);
+        for (si, s) in huge_eq.iter().enumerate() {
+            for (ti, ty) in ta.iter().enumerate() {
+                let pick = if thorough { (si + oi_k + ti) % 3 == 0 } else { (si == oi_k % 4 && ti == oi_k % ta.len()) || (si == (oi_k + 1) % 4 && ti == (oi_k + 3) % ta.len()) };
+                if pick { out(case_line_y(oi, ty, s, s, 30)); }
+            }
+        }
+        for (si, (sa, sb)) in huge_st.iter().enumerate() {
+            let n: usize = sa.iter().product();
+            for (ti, ty) in ta.iter().enumerate() {
+                let pick = if thorough { (si + oi_k + ti) % 4 == 0 && (n < 100_000 || (oi_k + ti) % 3 == 0) } else { si == oi_k % huge_st.len() && ti == (oi_k / 2) % ta.len() };
+                if !pick { continue; }
+                out(case_line_y(oi, ty, sa, sb, 31));
+                // the receiver is the stretched one (both-stretch family only; a refusal for the receiver-shaped family)
+                if !r_family(oi) && (thorough || oi_k % 2 == 0) { out(case_line_y(oi, ty, sb, sa, 31)); }
+            }
+        }
+        if !r_family(oi) && (thorough || oi_k % 3 == 0) { out(case_line_y(oi, ta[oi_k % ta.len()], &[130, 1], &[1, 130], 32)); }
+        if oi.comm && (thorough || oi_k % 2 == 0) {
+            let (ty, s) = (ta[oi_k % ta.len()], &huge_eq[oi_k % 4]);
+            let n: usize = s.iter().product();
+            let (va, vb) = (comm_vals(&mut ry, ty, oi, n), comm_vals(&mut ry, ty, oi, n));
+            out(format!("comm {} {} {} {}:{} {}:{}", oi.name, oi.pat, ty, show_list(s), va.join(","), show_list(s), vb.join(",")));
+        }
+    }
+    // an axis above 65 536 that is NOT stretched while the other axis is: [70000] with [2,1] (both-stretch family), receiver [2,70000]
+    // with argument [70000] (receiver-shaped family).  9.5 s of model time each (list-backed gather): one op of each family per run in
+    // the quick tier (chosen by the seed), three in the thorough tier
+    let (fam_b, fam_r): (Vec<&OpInfo>, Vec<&OpInfo>) = OPS.iter().partition(|oi| !r_family(oi));
+    for j in 0..(if thorough { 3 } else { 1 }) {
+        let (ob, or) = (fam_b[(seed as usize + j * 7) % fam_b.len()], fam_r[(seed as usize + j * 3) % fam_r.len()]);
+        let (tb, tr) = (types_all(ob), types_all(or));
+        out(case_line_y(ob, tb[(seed as usize + j) % tb.len()], &[70000], &[2, 1], 33));
+        out(case_line_y(or, tr[(seed as usize + j) % tr.len()], &[2, 70000], &[70000], 33));
+    }
+    // clip on huge receivers
+    for (si, s) in huge_eq.iter().enumerate() {
+        let ty = ["f64", "i32", "u8", "i64"][si];
+        let mut rng = Rng::new(hash_str(&format!("cliphuge|{si}")));
+        let last = vec![*s.last().unwrap()];
+        let (a, l) = by_ty!(ty, fill_y, &mut rng, &clip_info, s, s);
+        let (_, h) = by_ty!(ty, fill_y, &mut rng, &clip_info, s, &last);
+        out(format!("clip R3 {ty} {a} {l} {h}"));
+    }
+
+    // ---- (xvi) exact lengths: every axis length 1..300 in a non-leading position, ops and element types in rotation
+    for l in 1..=300usize {
+        for oi_k in [l % OPS.len(), (l * 7 + 3) % OPS.len()] {
+            let oi = &OPS[oi_k];
+            let ta = types_all(oi);
+            let ty = ta[l % ta.len()];
+            out(case_line_y(oi, ty, &[2, l], &[2, 1], 40));
+            if r_family(oi) { out(case_line_y(oi, ty, &[3, l], &[l], 40)); } else { out(case_line_y(oi, ty, &[3, 1], &[1, l], 40)); }
+            if thorough { out(case_line_y(oi, ty, &[2, l, 2], &[l, 1], 40)); }
+        }
+    }
+    // ---- (xvii) ranks 5..8
+    let n_rank = if thorough { 3000 } else { 300 };
+    for k in 0..n_rank {
+        let oi = &OPS[k % OPS.len()];
+        let ty = *ry.pick(&types_all(oi));
+        let r = 5 + ry.below(4);
+        let b: Vec<usize> = loop { let b: Vec<usize> = (0..r).map(|_| *ry.pick(&[1usize, 1, 2, 2, 3])).collect(); if b.iter().product::<usize>() <= 300 { break b; } };
+        let derive = |rng: &mut Rng| -> Vec<usize> { let j = rng.below(b.len()); b[j..].iter().map(|&d| if rng.below(2) == 0 { 1 } else { d }).collect() };
+        let (sa, sb) = if r_family(oi) || ry.below(2) == 0 { (b.clone(), derive(&mut ry)) } else { (derive(&mut ry), derive(&mut ry)) };
+        out(case_line_y(oi, ty, &sa, &sb, seed.wrapping_add(k as u64)));
+    }
+    // ---- (xviii) edge values (f64::MAX before +inf and its neighbours, f32::MAX, the largest subnormal, 1 -+ EPSILON) on the float
+    //      types and the limit values on the integer types, every op x every type x every ordered pair of shapes rank<=2 len<=3
+    for oi in OPS.iter() {
+        for ty in types_all(oi) {
+            if !thorough && !matches!(ty, "f64" | "f32") { continue; }
+            for sa in &small2 { for sb in &small2 { out(case_line_y(oi, ty, sa, sb, 50)); if matches!(ty, "f64" | "f32") { out(case_line_y(oi, ty, sa, sb, 51)); } } }
+        }
+    }
 }
 
 /// non-trivial: a case of the positional streams whose operands are broadcast-compatible with some operand really
 /// stretched along an axis of result length > 1, or a refusal case (zero in the divisor of a division-family op)
 fn nontrivial(op: &str, args: &[&str]) -> bool {
+    if op == "seq" { return args.split(|&a| a == "/").any(|p| !p.is_empty() && nontrivial(p[0], &p[1..])); }
     let shape_of = |s: &str| -> Vec<usize> { s.split_once(':').map_or(vec![], |(sh, _)| parse_usize_list(sh)) };
     let (sa, sb, bvals) = match op {
         "comm" => return args.len() == 5 && shape_of(args[3]).iter().product::<usize>() > 1,
